@@ -1073,7 +1073,9 @@ class Parser:
                 return self.block_like()
             if kw == "move":
                 self.i += 1
-                return self.closure()
+                c = self.closure()
+                c.move = True       # (a `move` closure copies what it captures; see Emitter.inline_closure)
+                return c
             if kw == "return":
                 self.i += 1
                 e = None
